@@ -187,6 +187,26 @@ CHECKS = {
              "upstream connection; random re-segmentation of the upstream stream must not change the relayed bytes.",
         note="Trusted: TLC; scripted upstream transports. A FIN in the middle of a body is indistinguishable from its end and is "
              "relayed as sent (left undecided, as in DESIGN.md)."),
+    "C08": dict(
+        engine="Url", design="8 C08, 5.5, 5.1",
+        text="Grammar: TLC enumerates the full product of URL component kinds (scheme x user-info x host x port x path x query x "
+             "fragment x length class = 705 600 URLs x uploads on/off) and checks the grammar model; thousands of sampled URLs "
+             "(every kind of every component swept, several spellings per kind, lines padded to exactly 1024 / 1025 bytes) are "
+             "sent over the wire path of the real server protocol with spy handler, spy middleware and spy upload handler, and "
+             "what was observed is judged by TLC (UrlObs: AcceptOK with host/port/path/query intact, RejectOK = 59, Refuse50, "
+             "CalledOnlyIfAcceptable); unconstrained byte strings are checked for the implication only. Wire state machine: the "
+             "ServerConn model check + edge replay run with C08's formulas (OnlyValidReachHandler, SegIndep, Progress).",
+        note="Grey (checked only for 'called => not must-reject'): upper-case scheme, empty user-info, empty fragment, raw control "
+             "characters and spaces inside the line (urlparse strips or keeps them)."),
+    "C19": dict(
+        engine="Url", design="8 C19, 5.5", level="exploration",
+        text="The Url grammar model (Norm on component kinds: Idempotent, MeaningPreserved, NormalizedWellformed checked by TLC on "
+             "705 600 URLs) is the case generator and oracle: thousands of sampled URLs go through parse_url / normalize_url / "
+             "validate_url and a GeminiClientProtocol -> server-protocol round trip; idempotence, same host/port/path/query, "
+             "acceptance of the normal form and the components the server parses are judged by TLC (UrlObs).",
+        note="No temporal content (stated in DESIGN.md): the specification contributes the systematic product and the expected "
+             "components. One known finding: empty path at exactly the length limit.",
+        technique="TLA+ grammar model enumerated by TLC as case generator and oracle; library and wire round trip judged by a TLC observation spec"),
 }
 
 ORDER = ["C01", "C02", "C03", "C04", "C05", "C06", "C07", "C08", "C09", "C10", "C11", "C12", "C13", "C14", "C15",
